@@ -80,7 +80,7 @@ META = {
         "z3 (enumeration sort for file kinds, uninterpreted sort for contents)",
     ],
     "assumptions": [
-        "process crash only: data handed to the OS is not lost and rename is atomic (no fsync / power-failure reasoning)",
+        "process death only - by a kill (nothing runs afterwards) or by an exception raised at the crash point (finally-clauses and context managers of the code under contract run first, with the file system alive): data handed to the OS is not lost and rename is atomic (no fsync / power-failure reasoning)",
         "POSIX rename semantics (os.rename replaces an existing destination); Windows is out of scope",
         "no other process touches the three files; no symbolic links",
         "safely=False is an explicit opt-out of the guarantee: no call site passes it (checked by C18.callsites.flags); only its frame/exit contract is verified",
@@ -188,10 +188,10 @@ def _snapshot(fs):
     return out, extra
 
 
-def abs_run(pre_tok, flags, crash_at, steps, site="save_parameters", fn_mod=None):
+def abs_run(pre_tok, flags, crash_at, steps, site="save_parameters", fn_mod=None, death="kill"):
     """run the real code once on the ghost image.  returns dict(fs, snap, new, outcome, error)"""
     fn, mod = fn_mod or _locate()
-    fs = GhostFS(steps=steps, crash_at=crash_at)
+    fs = GhostFS(steps=steps, crash_at=crash_at, death=death)
     for r, (k, t) in pre_tok.items():
         fs.preset(_path(r), k, t)
     new = Token("v_new")
@@ -201,6 +201,8 @@ def abs_run(pre_tok, flags, crash_at, steps, site="save_parameters", fn_mod=None
             _call(site, fn, GHOST_NAME, new, flags)
         except Crash:
             outcome = "crashed"
+        except fsmodel.Unwind:
+            outcome = "crashed"        # the exception left the function under contract: the process ends here
         except Undecided:
             raise
         except Exception as e:  # noqa: BLE001
@@ -213,10 +215,18 @@ def abs_run(pre_tok, flags, crash_at, steps, site="save_parameters", fn_mod=None
         raise Undecided("; ".join(fs.unmodelled))
     if fs.crashed:
         outcome = "crashed"
+    if fs.unwound and outcome != "crashed":
+        # the code under contract swallowed the exception and went on: not a death of the process (nothing to claim for this point)
+        outcome = "swallowed"
     if outcome == "returned" and fs.open_handles:
         raise Undecided("file left open at return (%s): completion would rely on garbage collection" % fs.open_handles)
     snap, extra = _snapshot(fs)
     return {"fs": fs, "snap": snap, "extra": extra, "new": new, "outcome": outcome, "error": err}
+
+
+class _UnwindPoint(int):
+    """crash point j at which the process dies from an exception (handlers run) rather than from a kill"""
+    death = "unwind"
 
 
 def crash_states(pre_tok, flags, steps, site="save_parameters"):
@@ -232,6 +242,12 @@ def crash_states(pre_tok, flags, steps, site="save_parameters"):
         if r["outcome"] != "crashed" or r["fs"].events != ref["fs"].events[:j]:
             raise Undecided("the event sequence is not reproducible (crash point %d)" % j)
         out.append((j, fsmodel.describe_point(j, ref["fs"].events), r["snap"], r["new"]))
+        # the same instant, the process dying from an exception raised there: finally-clauses / context managers run first
+        r2 = abs_run(pre_tok, flags, j, steps, site, fm, death="unwind")
+        if r2["fs"].events[:j] != ref["fs"].events[:j]:
+            raise Undecided("the event sequence is not reproducible (crash point %d, death by exception)" % j)
+        if r2["outcome"] == "crashed":
+            out.append((_UnwindPoint(j), fsmodel.describe_point(j, ref["fs"].events) + " [death by an exception raised there: handlers have run]", r2["snap"], r2["new"]))
     # crash after the last file-system call == the state in which the call ends (returned or raised)
     out.append((n, fsmodel.describe_point(n, ref["fs"].events), ref["snap"], ref["new"]))
     return out, ref
@@ -435,12 +451,14 @@ def real_sequence(args):
             tag = 101 + i
             label = "v%d" % (i + 1)
             tags[label] = tag
-            fs = RealFS(steps=steps, crash_at=call.get("crash_point"))
+            fs = RealFS(steps=steps, crash_at=call.get("crash_point"), death=call.get("death", "kill"))
             outcome = "returned"
             with fsmodel.installed(mod, fs):
                 try:
                     _call(site, fn, name, _gen(tag), dict(call.get("flags") or {}), real_tag=tag)
                 except Crash:
+                    outcome = "crashed"
+                except fsmodel.Unwind:
                     outcome = "crashed"
                 except OSError as e:
                     outcome = "raised %s" % type(e).__name__
@@ -541,7 +559,7 @@ def _ob_crash(pre, flagname, steps, site="save_parameters", paths=((),)):
         cands = [(list(pc), b) for pc in paths for b in bad][:40]
         chosen, tried = None, 0
         for pc, (j, label, snap, failed, model) in cands:
-            calls = pc + [{"flags": flags, "crash_point": j if j < nev else None, "at": label}]
+            calls = pc + [{"flags": flags, "crash_point": (int(j) if j < nev else None), "death": getattr(j, "death", "kill"), "at": label}]
             tried += 1
             try:
                 ok, _ = replay_fs({"site": site, "steps": steps, "pre": {r: [k] for r, k in zip(ROLES, GOOD if pc else pre)},
@@ -552,7 +570,7 @@ def _ob_crash(pre, flagname, steps, site="save_parameters", paths=((),)):
                 chosen = (pc, (j, label, snap, failed, model))
                 break
         pc, (j, label, snap, failed, model) = chosen or cands[0]
-        calls = pc + [{"flags": flags, "crash_point": j if j < nev else None, "at": label}]
+        calls = pc + [{"flags": flags, "crash_point": (int(j) if j < nev else None), "death": getattr(j, "death", "kill"), "at": label}]
         start = GOOD if pc else pre
         _refute("from %s (flags=%s, site=%s) a crash at point %d [%s] leaves %s: %s violated%s; z3 model of facts & not goal: %s"
                 % (_fmt_state(pre), flagname, site, j, label, _snap_json(snap), ",".join(failed),
@@ -624,7 +642,7 @@ def _path_to(parent, s, flags):
     calls = []
     while parent[s] is not None:
         p, j, label = parent[s]
-        calls.append({"flags": flags, "crash_point": j, "at": label})
+        calls.append({"flags": flags, "crash_point": (None if j is None else int(j)), "death": getattr(j, "death", "kill"), "at": label})
         s = p
     return list(reversed(calls))
 
@@ -648,7 +666,7 @@ def _ob_step(pre, flagname, steps):
     path_calls = _path_to(parent, pre, flags)
     paths = [path_calls]
     for (s, j, label) in alts.get(pre, []):  # other last hops into `pre`, each after a shortest path to its source
-        alt = _path_to(parent, s, flags) + [{"flags": flags, "crash_point": j, "at": label}]
+        alt = _path_to(parent, s, flags) + [{"flags": flags, "crash_point": (None if j is None else int(j)), "death": getattr(j, "death", "kill"), "at": label}]
         if alt not in paths:
             paths.append(alt)
     r = _ob_crash(pre, flagname, steps, "save_parameters", paths)
@@ -939,8 +957,8 @@ def _ob_crosscheck(flagname, steps, pres, site="save_parameters"):
         states, ref = crash_states(pre_tok, flags, steps, site)
         nev = len(ref["fs"].events)
         for j, label, snap, new in states:
-            real = _compare(pre, [{"flags": flags, "crash_point": j if j < nev else None}], steps, site, snap,
-                            ref["fs"].events[:j])
+            real = _compare(pre, [{"flags": flags, "crash_point": (int(j) if j < nev else None), "death": getattr(j, "death", "kill")}], steps, site, snap,
+                            ref["fs"].events[:j] if getattr(j, "death", "kill") == "kill" else None)   # the unwinding adds events of its own
             # labels of complete files must agree too (which generation survived)
             for r in ROLES:
                 if snap[r][0] == COMPLETE:
@@ -968,7 +986,7 @@ def _ob_crosscheck_seq(flagname, steps, maxlen):
                 states, ref = crash_states(pre_tok, flags, steps)
                 cache[s] = [(j if j < len(ref["fs"].events) else None, _abstract(snap, _valid_tokens(pre_tok, new), new)) for j, _, snap, new in states]
             for j, t in cache[s]:
-                c2 = calls + [{"flags": flags, "crash_point": j}]
+                c2 = calls + [{"flags": flags, "crash_point": (None if j is None else int(j)), "death": getattr(j, "death", "kill")}]
                 res = real_sequence({"site": "save_parameters", "steps": steps, "pre": {r: [k] for r, k in zip(ROLES, GOOD)}, "calls": c2})
                 real = tuple(res["states"][-1][r][0] for r in ROLES)
                 if real != t:
